@@ -6,6 +6,9 @@ go build -o bin/govc ./cmd/govc || exit 1
 ./bin/govc lock >/dev/null || exit 1   # refresh contracts/ordinals.lock (headers of the statements ordinal-anchored clauses were written for)
 python3 tools/gen_manifest.py >/dev/null
 rc=0
+# postconditions that call sites assume but no claimed check proves (see `govc list -claimed`)
+claimed=$(python3 -c "import json;print(','.join(c['property_id'] for c in json.load(open('MANIFEST.json'))['checks']))")
+./bin/govc list -claimed $claimed | grep UNSERVED && { echo "  !! unserved postconditions"; rc=1; }
 for p in $(python3 -c "import json;print(' '.join(c['property_id'] for c in json.load(open('MANIFEST.json'))['checks']))"); do
   out=$(./bin/govc check -property $p -tier quick 2>&1); e=$?
   echo "$out" | grep "^property" | cut -c1-170
